@@ -4,6 +4,7 @@ package main
 
 import (
 	"fmt"
+	"math/big"
 	"go/types"
 	"strings"
 )
@@ -534,6 +535,10 @@ func (ev *evaluator) call(e *Expr) (*Term, error) {
 			return IntC(int64(ti.Width)), nil
 		case "minval":
 			return ti.min(), nil
+		}
+		if e.Name == "max" && ti.Width == 8 && !ti.Signed {
+			// the largest count or length representable both in a uint64 prefix and in Go's int
+			return BigC(new(big.Int).Sub(new(big.Int).Lsh(big.NewInt(1), 63), big.NewInt(1))), nil
 		}
 		return ti.max(), nil
 	case "enc": // enc(order, Type, value)
